@@ -47,14 +47,14 @@ P={
   "Restore sets the model to the checkpoint's copy (also a checkpoint NEWER than the present state after an earlier restore); everything after must behave as usual (new commits visible and durable, no data from the discarded timeline); checkpoint copies opened standalone must scan to the checkpointed state. Streams: plain, vlog on, cache on.",
   "Trusted: model; no commit in flight at checkpoint time (single-threaded interpreter)."),
 "C15":("fault_enumeration","crash","fault-position enumeration (n-th write / fsync / rename / open on a file class fails) over generated workloads, then crash-image enumeration after the fault; plus schedules with refused batches",
-  "A fault-free pass places the fault on an operation that exists; the faulted run (LD_PRELOAD shim) checks after every failed commit that none of its writes is visible; then process-crash and power-loss images are enumerated at the file-operation boundaries after the fault and must open to an acknowledged-commit prefix that contains no transaction whose commit() had returned an error. Non-I/O family: schedules in which batches larger than the memtable must be refused, leave nothing visible (probes) and not poison later commits.",
+  "A fault-free pass places the fault on an operation that exists; the faulted run (LD_PRELOAD shim) checks after every failed commit that none of its writes is visible; then process-crash and power-loss images are enumerated at the file-operation boundaries after the fault and must open to an acknowledged-commit prefix that contains no transaction whose commit() had returned an error. Non-I/O family: schedules in which batches larger than the memtable must be refused, leave nothing visible (probes) and not poison later commits; a boundary stream (the size limit at which a transaction is refused is found on the real store by bisection, the sizes around it are tried one by one: commit succeeds or leaves nothing, later commits work, a copy of the directory opens); and real writer threads against the store's own background tasks, where no commit may fail without a fault.",
   "One fault specification per run (transient or sticky); operations of the initial open are not faulted; a transaction inside commit() at the crash is optional as a whole."),
 "C16":("fault_enumeration","format","bit/byte-flip enumeration over files of generated databases",
   "Every answer on a damaged copy equals the pristine answer or is an error; no panic/hang.",
   "Sub-process isolation."),
-"C17":("exploration","sched","generated schedules (priority schedules, five actor-mix flavours) with structural no-progress / lock-cycle detection confirmed by re-run",
-  "Committers (more than the pipeline permits), flusher with a drain loop, closer, readers creating range cursors; tiny memtables and low stall thresholds. The run must complete: at every decision somebody is eligible or everything has finished; an actor blocked inside the store while lock holders parked between two lock acquisitions are released and block as well is a lock cycle; no actor panics; every commit() and close() returns. A stuck run is only reported if the same case is stuck again when re-run from scratch.",
-  "Bounded: no reachable stuck state in the explored schedules; not a liveness proof; decision-budget exhaustion is inconclusive."),
+"C17":("exploration","sched","generated schedules (priority schedules, five actor-mix flavours) with structural no-progress / lock-cycle detection confirmed by re-run, plus a real-thread stress stream with state-based stuck detection",
+  "Committers (more than the pipeline permits), flusher with a drain loop, closer, readers creating range cursors; tiny memtables and low stall thresholds. The run must complete: at every decision somebody is eligible or everything has finished; an actor blocked inside the store while lock holders parked between two lock acquisitions are released and block as well is a lock cycle; no actor panics; every commit() and close() returns. A stuck run is only reported if the same case is stuck again when re-run from scratch. An uncontrolled part runs real writer (and reader) threads against the store's own background tasks and reports persistent STATES: nobody moves although nothing stalls; the stall condition holds but the store's physical state has not changed for 10 s; a query of the store's state does not return (deadlock).",
+  "Bounded: no reachable stuck state in the explored schedules; not a liveness proof; decision-budget exhaustion is inconclusive; the stress part's coverage (not its verdict) depends on timing."),
 "C18":("exploration","format","stateful PBT of the B+tree against BTreeMap with page accounting",
   "Generated op sequences with skewed sizes; results and page accounting compared.",
   "Public BPlusTree API."),
